@@ -616,8 +616,13 @@ fn conv(usd: i32, pool: i32, supply: u8, divisor: u8) -> Option<i32> {
     }
 }
 
-fn deposit_leg(long_side: bool) {
+fn deposit_leg(long_side: bool, with_impact: bool) {
     let mut m = round_trip_market_u8();
+    if !with_impact {
+        // concrete zero factors: the impact value is the constant 0 and the impact branches are skipped
+        m.swap_impact_positive = 0;
+        m.swap_impact_negative = 0;
+    }
     m.usd_to_amount_divisor = kani::any();
     let m0 = m;
     let a: u8 = kani::any();
@@ -655,8 +660,10 @@ fn deposit_leg(long_side: bool) {
         assert!(pia == 0, "C06: positive impact paid on a first deposit");
     }
     kani::cover!(s0 > 0 && d.minted > 1 && fees.0 > 0, "deposit with fees into a live pool");
-    kani::cover!(s0 > 0 && d.minted > 0 && pia > 0, "deposit with funded positive impact");
-    kani::cover!(s0 > 0 && d.minted > 0 && neg > 0, "deposit with negative impact");
+    if with_impact {
+        kani::cover!(s0 > 0 && d.minted > 0 && pia > 0, "deposit with funded positive impact");
+        kani::cover!(s0 > 0 && d.minted > 0 && neg > 0, "deposit with negative impact");
+    }
     kani::cover!(s0 == 0 && d.minted > 0, "first deposit");
 }
 
@@ -667,7 +674,17 @@ fn deposit_leg(long_side: bool) {
 #[kani::proof]
 #[kani::unwind(1)]
 fn c06_deposit_leg_long_whole_u8() {
-    deposit_leg(true);
+    deposit_leg(true, true);
+}
+
+//@ prop=C06 tier=thorough kind=hold
+//@ enc=Deposit::try_new, Deposit::execute, Deposit::price_impact, Deposit::execute_deposit, Deposit::charge_fees, LiquidityMarketExt::pool_value, LiquidityMarketExt::validate_pool_value_for_deposit, BaseMarketExt::validate_max_pnl, BaseMarketExt::validate_pool_amount, BaseMarketMutExt::apply_delta, utils::usd_to_market_token_amount, FeeParams::apply_fees
+//@ bound=T=u8 DECIMALS=1 (UNIT 10): one LONG-token Deposit::execute with swap impact factors ZERO (cheaper companion of the harness above): liquidity pool, swap impact pool, supply (supply > 0 or liquidity empty), divisor, amount, all six prices, swap fee / receiver factors symbolic; no open interest, no borrowing state, no position impact pool
+//@ timeout=5400 mem=40
+#[kani::proof]
+#[kani::unwind(1)]
+fn c06_deposit_leg_long_no_impact_whole_u8() {
+    deposit_leg(true, false);
 }
 
 //@ prop=C06 tier=thorough kind=hold
@@ -677,7 +694,7 @@ fn c06_deposit_leg_long_whole_u8() {
 #[kani::proof]
 #[kani::unwind(1)]
 fn c06_deposit_leg_short_whole_u8() {
-    deposit_leg(false);
+    deposit_leg(false, true);
 }
 
 //@ prop=C06 tier=thorough kind=hold
